@@ -187,7 +187,10 @@ func (u *Unit) emit(line string) {
 
 // define names a term when it is large, to keep queries linear in program size.
 func (u *Unit) define(prefix, srt, term string) string {
-	if len(term) <= 48 || u.discovery || u.pure > 0 {
+	if len(term) <= 48 || u.pure > 0 {
+		return term
+	}
+	if u.discovery && len(term) <= 4096 {
 		return term
 	}
 	n := u.freshName(prefix)
@@ -1168,6 +1171,20 @@ func (fr *Frame) localsAt(at ssa.Instruction) func(string, *State) (Val, bool) {
 				if blk == ab && in == at {
 					break
 				}
+				if ph, ok := in.(*ssa.Phi); ok && ph.Comment == name {
+					// the variable's reaching definition after a merge is the phi, not the last dominating assignment
+					if rank := depth*100000 + ii; rank > bestRank {
+						bestRank, best, bestAddr = rank, ph, false
+					}
+					continue
+				}
+				if ph, ok := in.(*ssa.Phi); ok && ph.Comment == name {
+					// the variable's reaching definition after a merge is the phi, not the last dominating assignment
+					if rank := depth*100000 + ii; rank > bestRank {
+						bestRank, best, bestAddr = rank, ph, false
+					}
+					continue
+				}
 				dr, ok := in.(*ssa.DebugRef)
 				if !ok {
 					continue
@@ -1192,7 +1209,7 @@ func (fr *Frame) localsAt(at ssa.Instruction) func(string, *State) (Val, bool) {
 }
 
 // countCall bumps the ghost call counter of `name` (function or field name) and runs the contract's call-site asserts.
-func (fr *Frame) countCall(st *State, name string, in ssa.Instruction, pos token.Pos) {
+func (fr *Frame) countCall(st *State, name string, in ssa.Instruction, pos token.Pos, args []Val) {
 	u := fr.u
 	if fr.parent != nil || name == "" {
 		return
@@ -1204,7 +1221,11 @@ func (fr *Frame) countCall(st *State, name string, in ssa.Instruction, pos token
 			if cl.Kind != fmt.Sprintf("assert@%s#%d", name, n) {
 				continue
 			}
-			t, err := u.specBool(cl.Expr, &specCtx{fr: fr, cur: st, old: u.entry, env: fr.baseEnv(), local: fr.localsAt(in)})
+			aenv := fr.baseEnv()
+			for i, a := range args {
+				aenv[fmt.Sprintf("arg%d", i)] = a
+			}
+			t, err := u.specBool(cl.Expr, &specCtx{fr: fr, cur: st, old: u.entry, env: aenv, local: fr.localsAt(in)})
 			if err != nil {
 				u.failed = fmt.Sprintf("%s:%d: %v", cl.File, cl.Line, err)
 				return
